@@ -25,6 +25,8 @@ def positional_accessors(prog):
     for k, b in sorted(prog.bodies.items()):
         if not k.startswith(AST) or "::generated::" in k or "{closure" in k or k.startswith(AST + "edit::") or k.startswith(AST + "token_ext::") or k.startswith(AST + "make::"):
             continue
+        if k.endswith("::nodes_around_else"):
+            continue            # helper (child nodes before / after the `else` keyword): checked by helper_check()
         cs = [(b.callee_of(t) or "") for _, t in b.calls()]
         if any(c.endswith(ITER) or c.endswith(("::skip", "::rev", "::nth_back", "::first_child", "::last_child", "::next_sibling", "::prev_sibling")) for c in cs):
             out.append(k)
@@ -49,7 +51,7 @@ def table(prog, fn, inline_local=True):
         counters = {}
         label = {}
         for name, args, bb in p.calls:
-            if not (name.endswith(ITER) and "AstChildren" in name or name.endswith("Iterator::nth") or name.endswith("Iterator::last")):
+            if not (name.endswith(ITER) and ("AstChildren" in name or "vec::IntoIter" in name) or name.endswith("Iterator::nth") or name.endswith("Iterator::last")):
                 if name.endswith(("::skip", "::rev", "::nth_back", "::step_by", "::filter", "::collect", "::peekable")):
                     unknown.append(name.split("::")[-1])
                 continue
@@ -58,11 +60,19 @@ def table(prog, fn, inline_local=True):
             root = it
             while isinstance(root, tuple) and root[0] in ("field",):
                 root = root[1]
-            if not (isinstance(root, tuple) and root[0] == "call" and root[1].endswith("support::children")):
+            # `self.nodes_around_else(after).into_iter()`: the child nodes before / after the `else` keyword
+            r2 = root
+            if isinstance(r2, tuple) and r2[0] == "call" and r2[1].endswith("::into_iter") and r2[2]:
+                r2 = strip_transparent(r2[2][0])
+            if isinstance(r2, tuple) and r2[0] == "call" and r2[1].endswith("::nodes_around_else") and len(r2[2]) == 2 and isinstance(r2[2][1], tuple) and r2[2][1][0] == "c":
+                key = r2[3]
+                T = "node-after-else" if r2[2][1][2] else "node-before-else"
+            elif isinstance(root, tuple) and root[0] == "call" and root[1].endswith("support::children"):
+                key = root[3]
+                T = ty_at.get(key[0][0], "?")
+            else:
                 unknown.append("iterator origin " + show(root)[:40])
                 continue
-            key = root[3]
-            T = ty_at.get(key[0][0], "?")
             c0 = counters.get(key, 0)
             if name.endswith("::next"):
                 idx, c1 = c0, c0 + 1
@@ -119,7 +129,8 @@ def table(prog, fn, inline_local=True):
                 return f"{s} {'is' if c[0] == 'eq' else 'is not'} {'|'.join(str(v) for v in vals)}"
             return f"{ren(t)} {c[0]} {c[1]}"
         conds = tuple(sorted({cond(t, c) for t, c in conds_of(p)}))
-        rows.add((conds, ren(deep_strip(p.env.get(0)))))
+        rty = b.local_ty(0).replace("oq3_syntax::ast::generated::nodes::", "").replace("std::option::", "").replace("oq3_syntax::ast::", "")
+        rows.add((conds, ren(deep_strip(p.env.get(0))) + " : " + rty))
     if se.truncated:
         unknown.append("path budget")
     return sorted(rows), sorted(set(unknown))
@@ -146,4 +157,33 @@ def check(prog, R, rule, floor=18):
         want = sorted((tuple(r["when"]), r["returns"]) for r in e["rows"])
         diff = [r for r in rows if r not in want] + [("missing",) + r for r in want if r not in rows]
         R.ob(rule, short, not diff, b.at, f"{len(rows)} rows agree with the role table ({e['reason'][:100]})" if not diff else f"role table differs from the reviewed one: {diff[:3]} (reviewed: {want[:3]})")
+    # accessors that must select by position: their type also occurs in a later slot of the same node, so that
+    # "first child of type T" returns the wrong constituent when the slot is filled by the alternative
+    MUST_BE_POSITIONAL = {"node_ext::AssignmentStmt::identifier": "ASSIGNMENT_STMT = (IDENTIFIER | INDEXED_IDENTIFIER) '=' value: with an indexed target and an identifier value (`a[0] = b;`) the first Identifier child is the value"}
+    have = {fn.replace(AST, "") for fn in positional_accessors(prog)}
+    for acc, why in sorted(MUST_BE_POSITIONAL.items()):
+        b = prog.body(AST + acc)
+        R.ob(rule, acc + ":positional", acc in have, b.at if b else "", "selects its constituent by position" if acc in have else f"selects by type (support::child::<T>) although {why}")
+    helper_check(prog, R, rule)
     R.floor("positional accessors with a role table", n, floor)
+
+
+def helper_check(prog, R, rule):
+    """IfStmt::nodes_around_else(after_else): the child *nodes* of the statement, split at the `else` keyword token."""
+    b = prog.body(AST + "node_ext::IfStmt::nodes_around_else")
+    if b is None:
+        return          # accessors do not use the helper
+    cals = [(b.callee_of(t) or "").split("::")[-1] for _, t in b.calls()]
+    consts = set()
+    for bi, si, st in b.stmts_with_pos():
+        if st["k"] == "assign" and st["rv"]["k"] == "agg" and st["rv"].get("vname"):
+            consts.add(st["rv"]["vname"])
+    from kernel import origins
+    kinds = set()
+    for bi, t in b.calls():
+        for a in t["args"]:
+            for og in origins(prog, b, a, max_depth=3):
+                if og[0] == "agg" and (og[1] or "").endswith("SyntaxKind"):
+                    kinds.add(og[2])
+    ok = "children_with_tokens" in cals and "push" in cals and kinds == {"ELSE_KW"}
+    R.ob(rule, "node_ext::IfStmt::nodes_around_else", ok, b.at, f"walks children_with_tokens, splits at {sorted(kinds)}, collects nodes with push" if ok else f"helper shape changed: calls {sorted(set(cals))[:8]}, kinds compared {sorted(kinds)}")
